@@ -507,11 +507,12 @@ CHECKS = [
               "every explored layout is then run end to end through the real command on a text file laid out that way",
           bounds=dict(all="7 columns; positional fields and one value field at any distinct column numbers (pairs); two value fields at any distinct columns (load)"),
           stubs=("E6 pd.read_csv(usecols=U, names=N): U is a set, names are bound in file order",), timeout=2400, split_depth=3),
-    Check("zoomify_spec", lambda tier: [dict(spec=i, binsize=b, nbins=nb) for i in range(len(SPECS)) for b, nb in ([(100, 300)] if tier == "quick" else [(100, 300), (1000, 700), (10, 5000)])],
+    Check("zoomify_spec", lambda tier: [dict(spec=i, binsize=b, nbins=nb) for i in range(len(SPECS)) for b, nb in ([(100, 300), (1000, 25)] if tier == "quick" else [(100, 300), (1000, 25), (1000, 700), (10, 5000), (100, 255), (4096, 31)])],
           spec_sym, spec_real, labels=("clipped",),
           doc="the resolution-spec loop of `cooler zoomify -r` (b, n, 4dn, <k>b, <k>n, upper-case, explicit lists, mixtures) with a symbolic genome length: "
               "== documented progression (ratio 2; 1-2-5) clipped to ceil(length/256)",
-          bounds=dict(quick="bin size 100, genome length 30001..30100", thorough="3 bin sizes"), timeout=1800),
+          bounds=dict(quick="bin size 100, genome length 30001..30100 (clip constant 118); bin size 1000, genome length 25001..26000 (clip 98..102 symbolic, "
+                            "crossing a member of the 1-2-5 progression)", thorough="6 bin size / length windows"), timeout=1800),
 ]
 
 MUTANTS = [
